@@ -11,6 +11,9 @@ KINDS = {'fn': 10, 'ident': 2, 'const': 2, 'product': 2, 'barrier': 1, 'byvalue'
          'switch_missing': 1, 'check_ids': 1}
 
 
+VIRTUAL = ['a0', 'zz']        # inherited names no node defines: requested in a tuple they are new inputs of the function (one sorts first, one last)
+
+
 def build_compiler(case, world, share=False):
     """the real GraphCompiler over Node objects and bound edges of the described graph; with `share`, nodes whose edges have equal
     descriptions are bound through ONE edge object (what `EdgesBag.freeze` and class-level edges do when a layer is used twice)"""
@@ -29,7 +32,7 @@ def build_compiler(case, world, share=False):
             edges.append(tree_edge.bind([nodes[p] for p in n['parents']], nodes[i]))
     inputs = [nodes[i] for i in case['inputs']]
     outputs = [nodes[i] for i, n in enumerate(case['nodes']) if n['edge'] is not None]
-    return GraphCompiler(inputs, outputs, edges, set(), set())
+    return GraphCompiler(inputs, outputs, edges, set(VIRTUAL), set())
 
 
 def gen_requests(rng, names):
@@ -73,19 +76,35 @@ def run_case(seed):
         if isinstance(v, list):
             env[k] = 'a'          # hashable inputs only
     reqs = gen_requests(rng, names)
+    # tuple requests that contain a virtual name (at most once: a repeated virtual name is rejected)
+    for r_ in list(reqs):
+        if len(r_) >= 1 and rng.random() < 0.4:
+            v = rng.choice(VIRTUAL)
+            pos_ = rng.randrange(len(r_) + 1)
+            reqs.append(tuple(r_[:pos_]) + (v,) + tuple(r_[pos_:]))
+    env.update({'a0': 'va', 'zz': 'vz'})
     evaluations = 0
     for req in reqs:
         o = Oracle(case, env)
         want, errs = [], set()
         for name in req:
+            if name in VIRTUAL:
+                want.append(env[name])
+                continue
             try:
                 want.append(o.value(index[name]))
             except OErr as e:
                 errs |= e.kinds
         try:
             g = compiler.compile(req if len(req) > 1 or rng.random() < 0.5 else req[0])
-            single = not isinstance(g.__signature__, type(None)) and len(req) == 1 and False
-            got = g(**{p: json_to_py(env[p]) for p in g.__signature__.parameters})
+            params = list(g.__signature__.parameters)
+            if any(n in VIRTUAL for n in req) and params != sorted(params):
+                return {'case': case, 'env': env, 'requests': reqs, 'request': req,
+                        'msg': f'request {req}: the parameters of the compiled function are {params}, not ordered by name (a positional call binds other inputs)'}, evaluations
+            if rng.random() < 0.5:
+                got = g(*[json_to_py(env[p]) for p in sorted(params)])        # positionally, in the order of the names
+            else:
+                got = g(**{p: json_to_py(env[p]) for p in params})
             res = ('ok', got)
         except Exception as e:
             res = ('err', exc_name(e))
